@@ -110,10 +110,11 @@ CLAIMED["C02"] = (T_WP + " (emission step and ring surgery); sampled bounded sta
   "buildPaths routes every output record to exactly one of the two solutions according to isOpen and skips records without points.",
   "Ring well-formedness (non-nil next/prev links) is an explicit assumed precondition (listed in evidence). cleanCollinear / fixSelfIntersects / orientation bookkeeping not under contract.",
   "DESIGN.md section 4, C02")
-CLAIMED["C04"] = (T_WP + " (tree node API only)",
+CLAIMED["C04"] = (T_WP + " (tree node API, owner recursion, split-ring owners); sampled bounded stand-in for the nesting clauses",
   "Proved for all inputs: PolyPathBase.AddChild creates a fresh node whose parent is the receiver and whose polygon is the argument, appends it exactly once and leaves the other children in place; Level() walks the parent links "
   "(exact for depth 0, 1, 2; step relation for every iteration); IsHole() is false for the root and for outer polygons and true for their direct children (the alternation the property describes); Clear/Count; "
-  "recursiveCheckOwners never attaches a record that already has a tree node. Owner correctness, containment and equality with the flat result are NOT decided.",
+  "recursiveCheckOwners never attaches a record that already has a tree node and only recurses into owners whose bounds are known to be non-empty (checkBounds' postcondition is trusted); processHorzJoins gives every split ring an owner. "
+  "Owner correctness, containment and equality with the flat result are not decided by proof: a sampled stand-in (labelled bounded) compares tree and flat results and checks orientation/level parity and containment on 16 000 (quick) / 480 000 (thorough) operations with nested and random polygons. Without touching or sliver polygons it finds no failure; with them it fails in about 0.4% of the operations (known finding F38, upstream's vertex-count / bounding-box-midpoint ownership test), and 3 operations differ by a zero-area polygon (F39).",
   "Heap model per struct field; tree depth counter treated as a mathematical integer.",
   "DESIGN.md section 4, C04")
 CLAIMED["C05"] = (T_WP + " (bookkeeping and join-geometry clauses; the containment statement is not decided)",
